@@ -49,6 +49,14 @@ CHECKS["C18"] = (
     "DESIGN.md section 4, C18",
 )
 
+CHECKS["C01"] = (
+    "E1-explicit-state+E2-fault-enumerator",
+    "explicit-state BFS over operation histories of generated spec classes with an object-graph identity oracle, plus exhaustive single-fault enumeration (every user-callback invocation, every executed library line)",
+    "For every class of the grammar family (quick: ~70 classes, thorough: ~240 incl. all kind x default-mode singles, options one at a time and composites) a BFS over histories of constructor calls, assignments, deletions, in-place and copy-on-write helper calls is run on the real class; every helper call without _inplace (valid and invalid arguments, raising transforms) is judged by comparing the receiver's and every argument's object graph (node identities and shallow contents) before and after, and is re-executed once per user-callback invocation with that callback raising and once per executed library line with an exception injected there (deviation bound 1, exhaustive).",
+    "Classes are warmed before judging (lazy first-call code not fault-injected); line granularity; pure transforms/preparers; bounded depth (quick 2 / thorough 3) and pools.",
+    "DESIGN.md section 4, C01",
+)
+
 ENGINES = [
     {"name": "E1-explicit-state", "path": "mc/common.py, props/*.py (explore)", "serves_properties": [],
      "kind_free_text": "breadth-first explicit-state search over the real transition function; a state is the shortest operation history that reaches it, rebuilt by replay; canonical-form deduplication; lock-step reference model"},
